@@ -2,8 +2,8 @@ package sym
 
 import (
 	"fmt"
-	"os"
 	"math/big"
+	"os"
 	"runtime"
 	"sort"
 	"strings"
@@ -103,13 +103,15 @@ type Worker struct {
 func (it *Interp) take(c *smt.Term, d dec) {
 	p := it.P
 	p.Decs = append(p.Decs, d)
-	if d.choice || d.forced {
+	if d.choice {
 		return
 	}
 	t := c
 	if !d.taken {
 		t = it.C.Not(c)
 	}
+	// forced decisions are implied by the path condition; they are kept as lemmas (cheap for the
+	// solver, and the interval pre-solver learns bounds from them)
 	it.addPC(t)
 }
 
@@ -247,6 +249,15 @@ func (it *Interp) feasible(c *smt.Term) smt.Result {
 	if n := it.C.Not(c); p.pcSet[n.ID] {
 		return smt.Unsat
 	}
+	if v, ok := it.decideByRanges(c); ok { // interval pre-solver (models_ranges.go)
+		if v {
+			return smt.Sat
+		}
+		return smt.Unsat
+	}
+	if it.sampleSat(c) { // sampling pre-solver (models_sample.go): concrete witness
+		return smt.Sat
+	}
 	as := append(it.slice(c), c)
 	t0 := time.Now()
 	r, err := it.S.Check(as, it.Cfg.FeasTimeoutMs)
@@ -322,13 +333,25 @@ func (it *Interp) Branch(c *smt.Term) bool {
 		return d.taken
 	}
 	it.jr.Branches++
+	if v, ok := it.decideByRanges(c); ok { // interval pre-solver (models_ranges.go): no solver call
+		it.take(c, dec{taken: v, forced: true})
+		return v
+	}
+	// sampling pre-solver (models_sample.go): a concrete witness for each side means a fork, no solver call
+	sc, sn := it.sampleSat(c), it.sampleSat(it.C.Not(c))
+	if sc && sn {
+		alt := append(append([]dec{}, p.Decs...), dec{taken: false})
+		it.push(alt)
+		it.take(c, dec{taken: true})
+		return true
+	}
 	// cheap pass: constraints that only talk about the atoms of the condition (ranges, earlier decisions)
-	if it.quickUnsat(c) {
+	if !sc && it.quickUnsat(c) {
 		d := dec{taken: false, forced: true}
 		it.take(c, d)
 		return false
 	}
-	if it.quickUnsat(it.C.Not(c)) {
+	if !sn && it.quickUnsat(it.C.Not(c)) {
 		d := dec{taken: true, forced: true}
 		it.take(c, d)
 		return true
@@ -496,6 +519,11 @@ func (it *Interp) Assert(label string, c *smt.Term) {
 	it.M.knownCond = nil
 	knownID := it.M.knownID
 	it.M.knownID = ""
+	if v, ok := it.decideByRanges(c); ok && v { // implied by interval reasoning (models_ranges.go)
+		it.jr.Discharged++
+		it.addPC(c)
+		return
+	}
 	neg := it.C.Not(c)
 	if known != nil && it.L.OpenFindings[knownID] {
 		// open finding: must hold outside the known condition
@@ -540,6 +568,8 @@ func (it *Interp) Assert(label string, c *smt.Term) {
 		it.S.Pop()
 	default:
 		it.jr.Discharged++
+		it.addPC(c) // PC implies c: no feasibility query needed
+		return
 	}
 	// continue under the assumption that it held
 	it.Assume(c)
@@ -615,6 +645,9 @@ func (w *Worker) RunJob(j job, solverBin string, shared *workList, jr *JobResult
 	it.jr = local
 	it.work = shared
 	it.hcfg = j.hcfg
+	if j.hcfg != nil && j.hcfg.cur.NoLift {
+		ctx.NoLift = true
+	}
 	it.caseN = j.caseN
 	for {
 		prefix, ok, finished := shared.pop()
@@ -843,7 +876,7 @@ func (it *Interp) nondetSource(what string) {
 // generic values: p(atoms) ≡ 0 (mod n) for a polynomial with at least two monomials, and equality of the
 // coordinates of two syntactically different points.
 func (it *Interp) genericBothWays(c *smt.Term) bool {
-	if it.Cfg.NoSlice {
+	if it.Cfg.NoSlice || !it.Cfg.GenericFork {
 		return false
 	}
 	if c.Op == smt.ONot {
